@@ -69,6 +69,9 @@ def run(ctx):
         progs.append(("bytes", lang.bytes_program(rng)))
         progs.append(("array-builtins", lang.array_ops_program(rng)))
         progs.append(("scoping-in-functions", lang.scoping_shadowed(rng)))
+    # element kinds of arrays in value position (literal of structs; an element access whose value is discarded)
+    progs.append(("struct-array-literal", "struct Pt { v: int }\nfn main() -> int {\n    let a: array<Pt> = [Pt { v: 1 }, Pt { v: 2 }]\n    (println (array_length a))\n    return 0\n}\nshadow main { assert (== 1 1) }\n"))
+    progs.append(("struct-at-discarded", "struct Pt { v: int }\nfn main() -> int {\n    let mut a: array<Pt> = []\n    set a (array_push a Pt { v: 1 })\n    (at a 0)\n    (println (array_length a))\n    return 0\n}\nshadow main { assert (== 1 1) }\n"))
     for k in range(24 if quick else 200):
         progs.append(("big-function", big_function_program(rng, rng.choice([4096, 4096, 8192]) + rng.randint(-60, 60))))
     with tempfile.TemporaryDirectory(prefix="nvc04", dir="/var/tmp") as td:
@@ -119,6 +122,10 @@ def run(ctx):
                 cls["native:refused-by-shadow-tests"] = cls.get("native:refused-by-shadow-tests", 0) + 1
             elif n["rc"] == "compile-failed" and fam == "nested-fn" and "F-C04-7" in ctx.findings and ctx.findings["F-C04-7"]["status"] == "known" and "nl_helper" in n["err"]:
                 ctx.known("F-C04-7", ctx.findings["F-C04-7"]["what"][:200])
+            elif n["rc"] == "compile-failed" and fam == "struct-array-literal" and ctx.findings.get("F-C04-10", {}).get("status") == "known" and "[]){" in n["err"]:
+                ctx.known("F-C04-10", ctx.findings["F-C04-10"]["what"][:200])
+            elif n["rc"] == "compile-failed" and fam == "struct-at-discarded" and ctx.findings.get("F-C04-9", {}).get("status") == "known" and "dyn_array_get_struct" in n["err"]:
+                ctx.known("F-C04-9", ctx.findings["F-C04-9"]["what"][:200])
             elif n["rc"] == "compile-failed":
                 oracle_fail.append({"family": fam, "why": "accepted program does not compile natively (generated C rejected or transpilation failed)", "diag": n["err"], "source": text})
             elif isinstance(n["rc"], int) and n["rc"] < 0 and n["rc"] not in (-6, -8):
